@@ -693,6 +693,8 @@ class Progress(JupyterMixin, RenderHook):
             self._refresh_thread = None
         if self.transient:
             self.console.control(self._live_render.restore_cursor())
+        # the display is over: a later start() must not erase what is on the screen now
+        self._live_render._shape = None
         if self.ipy_widget is not None and self.transient:  # pragma: no cover
             self.ipy_widget.clear_output()
             self.ipy_widget.close()
